@@ -125,6 +125,7 @@ func cmdCheck(args []string) int {
 			o.timeout = 60
 		}
 	}
+	crossCheck = o.tier == "thorough"
 	return runCheck(o)
 }
 
@@ -381,7 +382,21 @@ func runCheck(o checkOpts) int {
 		fr.Warnings = r.sortedWarnings()
 		frs = append(frs, fr)
 	}
+	crossConfirmed := 0
+	for _, r := range runs {
+		for _, ob := range r.obls {
+			if len(ob.Confirmed) > 0 {
+				crossConfirmed++
+			}
+			for _, pp := range ob.parts {
+				if len(pp.Confirmed) > 0 {
+					crossConfirmed++
+				}
+			}
+		}
+	}
 	extra := map[string]interface{}{
+		"cross_checked_by_second_solver": crossConfirmed,
 		"functions_under_contract": frs,
 		"by_backend":               byBackend,
 		"solver_time_s":            solverTime,
@@ -550,6 +565,7 @@ func writeEvidence(path string, o checkOpts, seed int, samples []sample, counts 
 		"sequential reasoning: no interference by other goroutines during a call except where a contract states a rely condition",
 		"signed int/int64 +,-,* treated as mathematical (no overflow wrap); unsigned arithmetic and all conversions wrap as in Go",
 		"failpoints disabled (util.EvalFailpoint returns an error)",
+		"functions marked `bytes: key`: a []byte is a point of a total order (\"\" least, bytes.Compare the order, kv.NextKey the successor) with concatenation, suffix and prefix-successor axioms - facts of byte strings under the lexicographic order, assumed, not proved",
 	}
 	assumedSet := map[string]bool{}
 	for _, r := range runs {
